@@ -616,6 +616,16 @@ func (fc *FuncCtx) havocTarget(env *Env, target Expr, st *State, base string) {
 				st.havoc(h)
 			}
 			return
+		case "pointee":
+			// pointee(p): the object behind a pointer that was boxed into an interface argument
+			l, _ := fc.pointeeLoc(env, c.Args[0])
+			if l == nil {
+				panic(trErr(fmt.Sprintf("pointee(%s): the argument is not a boxed pointer built at the call site", c.Args[0])))
+			}
+			fresh := fc.q.fresh(fc.pfx+base, eng.sorts.sortOf(l.gt))
+			fc.q.assume(fc.wf(fresh, l.gt))
+			fc.storeLoc(l, st, fresh)
+			return
 		case "effects":
 			// effects(fn): whatever the closure passed as fn may assign (its own contract's assigns clause)
 			fc.havocClosureEffects(env, c.Args[0], st, base)
@@ -655,6 +665,46 @@ func (fc *FuncCtx) havocTarget(env *Env, target Expr, st *State, base string) {
 	fresh := fc.q.fresh(fc.pfx+base, eng.sorts.sortOf(l.gt))
 	fc.q.assume(fc.wf(fresh, l.gt))
 	fc.storeLoc(l, st, fresh)
+}
+
+// argSSA: the SSA value of the actual argument bound to a contract parameter name.
+func (fc *FuncCtx) argSSA(env *Env, e Expr) ssa.Value {
+	id, ok := e.(EIdent)
+	if !ok {
+		return nil
+	}
+	tv, ok := env.vars[id.Name]
+	if !ok {
+		return nil
+	}
+	ci, ok := fc.curInstr.(ssa.CallInstruction)
+	if !ok {
+		return nil
+	}
+	for _, a := range ci.Common().Args {
+		if fc.v(a).T == tv.T {
+			return a
+		}
+	}
+	return nil
+}
+
+// pointeeLoc: for an interface argument built by MakeInterface from a pointer, the pointed-to location.
+func (fc *FuncCtx) pointeeLoc(env *Env, e Expr) (*Loc, types.Type) {
+	a := fc.argSSA(env, e)
+	mi, ok := a.(*ssa.MakeInterface)
+	if !ok {
+		return nil, nil
+	}
+	el, ok := deref(mi.X.Type())
+	if !ok {
+		return nil, nil
+	}
+	p := fc.v(mi.X)
+	if p.L != nil {
+		return p.L, el
+	}
+	return fc.eng.derefLoc(p.T, el), el
 }
 
 // closureOfArg finds the MakeClosure behind the actual argument bound to a callee parameter name.
@@ -1052,6 +1102,16 @@ func (e *Engine) callMods(caller *ssa.Function, c *ssa.CallCommon, out map[strin
 		if con.HasAssigns || con.Trusted || callee == nil {
 			out["$wm"] = true
 			e.contractMods(con, callee, c.Signature(), out)
+			if out["pointee"] {
+				delete(out, "pointee")
+				for _, arg := range c.Args {
+					if mi, ok := arg.(*ssa.MakeInterface); ok {
+						if _, isPtr := mi.X.Type().Underlying().(*types.Pointer); isPtr {
+							e.addrHeaps(mi.X, out)
+						}
+					}
+				}
+			}
 			for _, a := range con.Assigns {
 				if ec, ok := a.(ECall); ok && ec.Fn == "effects" {
 					delete(out, "*")
@@ -1217,6 +1277,8 @@ func (e *Engine) contractMods(con *Contract, callee *ssa.Function, sig *types.Si
 				}
 			case "cell":
 				out[x.Args[0].(EStr).Val] = true
+			case "pointee":
+				out["pointee"] = true // resolved by callMods from the actual arguments
 			case "effects":
 				// resolved by callMods from the actual arguments
 			case "fields":
